@@ -188,7 +188,7 @@ def jobs_for(check, mirror, rb, crate, U, jobs, tier, KNOWN_PRED):
 
     jobs.append(lambda c: decide(c, crate, "item_definition/collection_of_simple", setup_coll_simple, post_coll_simple,
                                  lambda i, rb: replay_itemdef("collection_of_simple", i, rb), rb, models=MODELS, unwind=16, describe=common_desc, budget_s=900,
-                                 min_paths=16, timeout_ms=20000, known_predicates=KNOWN_PRED, prefer=lambda inp: U.replayable_pref(inp["_x"])))
+                                 min_paths=16, timeout_ms=20000, known_predicates=KNOWN_PRED, prefer=lambda inp: U.replayable_pref(inp["_x"]), max_cex=8))
 
     # ------------------------------------------------------------------------------------------------------------ component types
     def closure_env(ex, st, builder, vals):
